@@ -115,7 +115,7 @@ func unzigzag(u uint64) int64 { return int64(u>>1) ^ -int64(u&1) }
 
 // scalar code constants (section 4.2.5.2 type option ids)
 const (
-	cCustom, cAscii, cBigint, cBlob, cBoolean, cCounter, cDecimal, cDouble, cFloat, cInt = 0x00, 0x01, 0x02, 0x03, 0x04, 0x05, 0x06, 0x07, 0x08, 0x09
+	cCustom, cAscii, cBigint, cBlob, cBoolean, cCounter, cDecimal, cDouble, cFloat, cInt                 = 0x00, 0x01, 0x02, 0x03, 0x04, 0x05, 0x06, 0x07, 0x08, 0x09
 	cTimestamp, cUuid, cVarchar, cVarint, cTimeuuid, cInet, cDate, cTime, cSmallint, cTinyint, cDuration = 0x0B, 0x0C, 0x0D, 0x0E, 0x0F, 0x10, 0x11, 0x12, 0x13, 0x14, 0x15
 )
 
